@@ -63,4 +63,15 @@ PLAN = {
         "quick": {"checks": 120, "shards": 16, "timeout": 600},
         "thorough": {"checks": 2500, "shards": 16, "timeout": 3000},
     },
+    "C09": {
+        "title": "No input crashes or hangs crd; failures are signalled; nonsense is refused",
+        "technique": "directed fault enumeration (every nonsense class x every channel embedded in rapid-generated valid contexts) plus structure-aware process fuzzing of every subcommand with a crash/hang/exit-status oracle; native go fuzz targets in the thorough tier",
+        "rule": "see DESIGN.md C09",
+        "assumptions": COMMON_ASSUME,
+        "level": "fault_enumeration",
+        "level_text": "Fault enumeration + fuzzing: each named class of meaningless input is injected through each channel it can arrive by, and arbitrary/mutated inputs are thrown at every subcommand; the oracle is termination, no crash, and exit status/stdout discipline.",
+        "level_note": "Trusted: the OS process interface (exit status, signals), a 10 s watchdog re-run once before a hang is believed. `write play` is excluded (real-time playback). Not coverage-guided at process level.",
+        "quick": {"checks": 60, "shards": 16, "timeout": 900},
+        "thorough": {"checks": 1500, "shards": 16, "timeout": 3000},
+    },
 }
